@@ -573,6 +573,92 @@ class Func:
 			return None
 		return blocks_seen
 
+	def bool_return_paths(self, removed_blocks=(), want=1, ret_local=0):
+		"""a path (block list) from the entry to a `return` that avoids `removed_blocks` and on which the returned bool is not known to differ
+		from `want`, or None.  Known values come from constant assignments, copies of known locals, and the edge taken at a `switchInt` on a
+		local (or on a same-block copy of it): on the 0 edge of `switchInt(copy matches)` both the copy and `matches` are false.  A value is
+		forgotten on any other assignment, on a call writing the local and when the local is mutably borrowed; forgetting only adds paths."""
+		removed_blocks = set(removed_blocks)
+		seen = set()
+		start = (0, frozenset(), frozenset())
+		prev = {start: None}
+		st = [start]
+		while st:
+			state = st.pop()
+			if state in seen:
+				continue
+			seen.add(state)
+			if len(seen) > 200000:
+				raise AnchorMissing('bool_return_paths: state space of %s too large' % self.name)
+			b, val, ali = state
+			v = dict(val); al = dict(ali)
+			def kill(l):
+				v.pop(l, None); al.pop(l, None)
+				for k in [k for k, x in al.items() if x == l]:
+					al.pop(k)
+			for s in self.blocks[b]['s']:
+				dst, rv = s[1], s[2]
+				if not dst:
+					continue
+				if rv[0] in ('ref', 'rawptr') and rv[1] and len(rv[2]) == 1:
+					kill(rv[2][0])
+				if len(dst) == 1:
+					d = dst[0]
+					kill(d)
+					if rv[0] == 'use' and rv[1][0] == 'k' and isinstance(rv[1][1], dict) and rv[1][1].get('ty') == 'bool':
+						v[d] = 1 if rv[1][1].get('v') else 0
+					elif rv[0] == 'use' and rv[1][0] in ('c', 'm') and len(rv[1][1]) == 1:
+						src = rv[1][1][0]
+						if src in v:
+							v[d] = v[src]
+						if (self.locals[src].get('ty') or '') == 'bool':
+							al[d] = al.get(src, src)
+				else:
+					kill(dst[0])
+			t = self.blocks[b]['t']
+			if t[1] == 'ret':
+				if v.get(ret_local) is None or v.get(ret_local) == want:
+					out = []
+					x = state
+					while x is not None:
+						out.append(x[0]); x = prev[x]
+					return out[::-1]
+				continue
+			if t[1] == 'call':
+				d = t[2].get('dest')
+				if d:
+					kill(d[0])
+			edges = []
+			if t[1] == 'switch' and t[2][0] in ('c', 'm') and len(t[2][1]) == 1 and (self.locals[t[2][1][0]].get('ty') or '') == 'bool':
+				x = t[2][1][0]
+				vals = {vv: tb for vv, tb in t[3]}
+				if x in v:
+					edges = [(vals.get(v[x], t[4]), None)]
+				else:
+					for vv, tb in t[3]:
+						edges.append((tb, vv))
+					others = [k for k in (0, 1) if k not in vals]
+					edges.append((t[4], others[0] if len(others) == 1 else None))
+				for tb, learnt in edges:
+					if tb in removed_blocks:
+						continue
+					v2 = dict(v)
+					if learnt is not None:
+						v2[x] = learnt
+						if x in al:
+							v2[al[x]] = learnt
+					ns = (tb, frozenset(v2.items()), frozenset(al.items()))
+					if ns not in seen:
+						prev.setdefault(ns, state); st.append(ns)
+				continue
+			for sblk in self.succ(b):
+				if sblk in removed_blocks:
+					continue
+				ns = (sblk, frozenset(v.items()), frozenset(al.items()))
+				if ns not in seen:
+					prev.setdefault(ns, state); st.append(ns)
+		return None
+
 	def path_lines(self, path):
 		out = []
 		for b in path:
